@@ -335,12 +335,12 @@ func evaluateOperatorValue(node *ExprNode, data map[string]any) (any, error) {
 	}
 
 	// For arithmetic operators, use NULL-supporting evaluation
-	left, leftIsNull, err := evaluateNodeValueWithNull(node.Left, data)
+	left, leftIsNull, err := evaluateOperandWithNull(node.Left, data)
 	if err != nil {
 		return nil, err
 	}
 
-	right, rightIsNull, err := evaluateNodeValueWithNull(node.Right, data)
+	right, rightIsNull, err := evaluateOperandWithNull(node.Right, data)
 	if err != nil {
 		return nil, err
 	}
@@ -643,12 +643,12 @@ func evaluateNodeWithNull(node *ExprNode, data map[string]any) (float64, bool, e
 	case TypeOperator:
 		// For comparison operators, return boolean converted to numeric
 		if isComparisonOperator(node.Value) {
-			leftValue, leftIsNull, err := evaluateNodeValueWithNull(node.Left, data)
+			leftValue, leftIsNull, err := evaluateOperandWithNull(node.Left, data)
 			if err != nil {
 				return 0, false, err
 			}
 
-			rightValue, rightIsNull, err := evaluateNodeValueWithNull(node.Right, data)
+			rightValue, rightIsNull, err := evaluateOperandWithNull(node.Right, data)
 			if err != nil {
 				return 0, false, err
 			}
@@ -746,6 +746,17 @@ func evaluateNodeWithNull(node *ExprNode, data map[string]any) (float64, bool, e
 	default:
 		return 0, false, fmt.Errorf("unknown node type: %s", node.Type)
 	}
+}
+
+// evaluateOperandWithNull evaluates an operand of an operator. Arithmetic over a NULL operand yields the
+// value nil without the NULL flag (evaluateOperatorValue); as an operand of an outer operator that value
+// is NULL too, so a - n - 3 == 1 with NULL n is not true instead of an error.
+func evaluateOperandWithNull(node *ExprNode, data map[string]any) (any, bool, error) {
+	val, isNull, err := evaluateNodeValueWithNull(node, data)
+	if err == nil && val == nil {
+		isNull = true
+	}
+	return val, isNull, err
 }
 
 // evaluateNodeValueWithNull evaluates the original value of a node with NULL value handling
@@ -953,7 +964,7 @@ func evaluateIsOperator(node *ExprNode, data map[string]any) (any, error) {
 	// Check if right side is NULL
 	if node.Right.Type == TypeField && strings.ToUpper(node.Right.Value) == "NULL" {
 		// Get left value using NULL-supporting method
-		_, leftIsNull, err := evaluateNodeValueWithNull(node.Left, data)
+		_, leftIsNull, err := evaluateOperandWithNull(node.Left, data)
 		if err != nil {
 			// If field doesn't exist, consider it NULL
 			leftIsNull = true
